@@ -11,6 +11,7 @@ import shutil
 import subprocess
 import tempfile
 import time
+import unicodedata
 from pathlib import Path
 
 from .. import e2e
@@ -252,9 +253,16 @@ def campaign_module_path(ck: Check, n: int) -> None:
     camp = ck.campaign("mod.sanitize / mod.modpath vs model.base.sanitize_module_name, get_module_path, get_module_name")
     t0 = time.time()
     rng = ck.rng.fork("modpath")
-    alpha = list("abzAZ019_.-") + [" ", "é", "²", "/", "$", "class", "x.y", "__"]
+    u = unicode_classes()
+    # ASCII, and representatives of every class on which "kept in the module name", "identifier character" and
+    # "stable under the compiler's NFKC normalisation" differ (fixed ones + drawn from the interpreter's tables)
+    alpha = list("abzAZ019_.-") + [" ", "é", "²", "/", "$", "class", "x.y", "__"] + u["unstable_known"] + u["stable_known"]
+    alpha += [rng.choice(u[k]) for k in ("unstable_start", "unstable_cont", "stable_start", "stable_cont", "non_identifier") for _ in range(3)]
+    for k in ("unstable_start", "unstable_cont", "stable_start", "stable_cont", "non_identifier"):
+        camp.hit(f"alphabet:{k}", 3)
     mk = lambda k: "".join(rng.choice(alpha) for _ in range(rng.range(0, k)))
     s_cases = [(rng.chance(1, 2), mk(6)) for _ in range(n)] + [(t, s) for t in (False, True) for s in ("", "1", "class", "a.b", "a-b", ".x", "9.9")]
+    s_cases += [(False, c + "_units") for c in u["unstable_known"] + u["stable_known"]] + [(False, "x" + c) for c in u["unstable_known"]]
     replies = ck.driver.run([f"mod.sanitize {B(t)} {hx(s)}" for t, s in s_cases])
     for (t, s), rep in zip(s_cases, replies):
         camp.evaluations += 1
@@ -264,6 +272,17 @@ def campaign_module_path(ck: Check, n: int) -> None:
         camp.distinct.add(("s", t, s))
         if model != impl:
             ck.disagree(camp, {"fn": "sanitize_module_name", "name": s, "treat_dot": t}, model, impl)
+    # the statement used next to `sanitized_stem_ascii`: the compiler's normalisation leaves ASCII text alone,
+    # and what it does to the non-ASCII representatives is what the name classes above say
+    for cp in range(128):
+        camp.evaluations += 1
+        if nfkc(chr(cp)) != chr(cp):
+            ck.disagree(camp, {"fn": "NFKC fixes ASCII", "char": cp}, chr(cp), nfkc(chr(cp)))
+    for c in u["unstable_known"]:
+        camp.evaluations += 1
+        if nfkc(c) == c or not ("a" + c).isidentifier():
+            ck.disagree(camp, {"fn": "representative is an NFKC-unstable identifier character", "char": uesc(c)}, True, False)
+    camp.hit("nfkc:ascii_fixed", 128)
     p_cases = []
     for _ in range(n):
         t = rng.chance(1, 2)
@@ -297,17 +316,136 @@ def campaign_module_path(ck: Check, n: int) -> None:
     camp.wall_s = time.time() - t0
 
 
+# ---------------------------------------------------------------- campaign: names of imports (scoped resolver)
+def PAIRS(ps) -> str:
+    return "(" + " ".join(f"({hx(a)} {hx(b)})" for a, b in ps) + ")"
+
+
+def model_aliases(ck: Check, jobs: list[tuple]) -> list:
+    """`mod.aliases` for (excl, classes, reqs) jobs -> list of names | "diverges" | "unmodelled" """
+    out = []
+    for rep in ck.driver.run([f"mod.aliases {P(sorted(e))} {PAIRS(c)} {PAIRS(r)}" for e, c, r in jobs]):
+        t = rep.split(" ")
+        out.append([unhx(x) for x in t[1:]] if t[0] == "ok" else rep)
+    return out
+
+
+def campaign_aliases(ck: Check, n: int) -> None:
+    """Model/Modules.importNames (two loops over one scoped resolver) vs a real ModelResolver driven the way
+    __change_from_import drives it: every class first, then every foreign reference"""
+    from datamodel_code_generator.reference import ModelResolver
+
+    camp = ck.campaign("mod.aliases (Scope.add / importNames) vs reference.ModelResolver driven as __change_from_import does")
+    t0 = time.time()
+    rng = ck.rng.fork("aliases")
+    words = ["Status", "Job", "Step", "Shared", "a", "b", "jobs", "Status_1", "Status_2", "K1", "x", "class", "1a", "my-name", ""]
+    jobs = []
+    for _ in range(n):
+        excl = {rng.choice(words[:11]) for _ in range(rng.range(0, 2))}
+        classes = []
+        for i in range(rng.range(0, 4)):
+            classes.append((f"#/definitions/m.{i}", rng.choice(words[:10])))
+        reqs = []
+        for _ in range(rng.range(0, 5)):
+            key = (rng.choice([".", "..", ".a", "..b"]), rng.choice(["a", "b", "Status", "Shared"]))
+            reqs.append((key, rng.choice(words if rng.chance(1, 6) else words[:10])))
+        jobs.append((excl, classes, reqs))
+    model = model_aliases(ck, [(e, [(ModelResolver.join_path([k]), c) for k, c in cl], [(ModelResolver.join_path(k), nm) for k, nm in rq]) for e, cl, rq in jobs])
+    for (excl, classes, reqs), m in zip(jobs, model):
+        camp.evaluations += 1
+        r = ModelResolver(exclude_names=set(excl))
+        for k, c in classes:
+            r.add([k], c)
+        impl = [r.add(k, nm).name for k, nm in reqs]
+        clash = bool({nm for _, nm in reqs} & ({c for _, c in classes} | excl))
+        camp.hit("asks_for_a_taken_name" if clash else "no_clash")
+        camp.hit(f"requests:{min(len(reqs), 3)}{'+' if len(reqs) > 3 else ''}")
+        if reqs:
+            camp.distinct.add(json.dumps([sorted(excl), classes, reqs]))
+        if m == "unmodelled":
+            camp.unmodelled += 1
+            continue
+        if m != impl:
+            ck.disagree(camp, {"fn": "ModelResolver.add sequence", "excl": sorted(excl), "classes": classes, "reqs": reqs}, m, impl)
+    camp.samples.append({"classes": ["Job", "Status", "Step"], "request": "Status", "name": "Status_1"})
+    camp.wall_s = time.time() - t0
+
+
+_RECORDS: list = []
+
+
+def install_recorder() -> None:
+    """Observe the real Parser.__change_from_import from outside: per call, the classes of the module, the excluded
+    names and every scoped_model_resolver.add(path, name) it makes with the name it got back."""
+    from datamodel_code_generator.parser import base as pb
+
+    orig = pb.Parser._Parser__change_from_import
+    if getattr(orig, "_c12_recorder", False):
+        return
+
+    def wrapper(self, models, imports, scoped_model_resolver, init):
+        res = scoped_model_resolver
+        rec = {"excl": sorted(res.exclude_names), "classes": [(res.join_path([m.path]), m.class_name) for m in models], "calls": []}
+        real_add = res.add
+
+        def add(path, original_name, **kw):
+            ref = real_add(path, original_name, **kw)
+            rec["calls"].append((res.join_path(path), original_name, ref.name, sorted(kw)))
+            return ref
+
+        res.add = add  # instance attribute: only this resolver, only during this call
+        try:
+            return orig(self, models, imports, scoped_model_resolver, init)
+        finally:
+            del res.add
+            _RECORDS.append(rec)
+
+    wrapper._c12_recorder = True
+    pb.Parser._Parser__change_from_import = wrapper
+
+
+def check_records(ck: Check, camp, case: dict, records: list) -> None:
+    """the names the real __change_from_import got for its imports vs Model/Modules.importNames on the same
+    classes, excluded names and sequence of foreign references"""
+    jobs, metas = [], []
+    for rec in records:
+        class_keys = {k for k, _ in rec["classes"]}
+        reqs = [(k, nm, got) for k, nm, got, kw in rec["calls"] if k not in class_keys]
+        if any(kw for _, _, _, kw in rec["calls"]):
+            camp.hit("aliases:call_with_keywords_unmodelled")
+            continue
+        if not reqs:
+            continue
+        if len(class_keys) != len(rec["classes"]):
+            camp.hit("aliases:outside_hypothesis:duplicate_model_path")
+        jobs.append((rec["excl"], rec["classes"], [(k, nm) for k, nm, _ in reqs]))
+        metas.append([got for _, _, got in reqs])
+    for (excl, classes, reqs), got, m in zip(jobs, metas, model_aliases(ck, jobs) if jobs else []):
+        camp.hit("aliases:modules_compared")
+        if m == "unmodelled":
+            camp.hit("aliases:unmodelled_non_ascii")
+            continue
+        if any(a != nm for a, (_, nm) in zip(got, reqs)):
+            camp.hit("aliases:renamed_import")
+        if m != got:
+            ck.disagree(camp, {"fn": "__change_from_import names", "excl": excl, "classes": classes, "reqs": reqs, "case": case}, m, got)
+        if set(got) & {c for _, c in classes}:
+            camp.hit("aliases:IMPORT_TAKES_LOCAL_CLASS_NAME")
+
+
 # ---------------------------------------------------------------- end-to-end: documents
 def build_doc(defs: dict, bases: dict, roots: dict | None = None) -> dict:
     """`defs`: dotted definition name -> list of dotted names it refers to (members);
     `bases`: dotted name -> dotted name of its base (allOf);
-    `roots`: dotted names (keys of `defs`) that are root models `array of $ref` instead of objects."""
+    `roots`: dotted names (keys of `defs`) that are root models `array of $ref` instead of objects.
+    Every object definition carries a member of its own (`m<k>`, k = position in the document), so that
+    the class a reference reaches can be told from every other class of the package (oracle (5))."""
     d = {}
     for name, refs in defs.items():
         if roots and name in roots:
             d[name] = {"type": "array", "items": {"$ref": f"#/definitions/{roots[name]}"}}
             continue
-        props = {"id": {"type": "integer"}}
+        props = {"id": {"type": "integer"}, f"m{list(defs).index(name)}": {"type": "string"}}
         for i, r in enumerate(refs):
             props[f"r{i}"] = {"$ref": f"#/definitions/{r}"}
         body = {"type": "object", "properties": props}
@@ -390,6 +528,84 @@ def gen_case(rng: Rng, depth: int) -> dict:
     return case
 
 
+# ---------------------------------------------------------------- family: one short class name in several modules
+CLASH_MODULES = [(), ("a",), ("b",), ("a", "b"), ("c", "d")]
+
+
+def clash_layouts() -> list[tuple]:
+    """(T, L, U): T defines the class N that L imports; L may define a class N of its own; U refers to L's class"""
+    # three different modules: U = T would make T and L refer to each other (an import cycle, not a C12 matter)
+    return [(t, l, u) for t in CLASH_MODULES for l in CLASH_MODULES for u in CLASH_MODULES if len({t, l, u}) == 3]
+
+
+def is_prefix(a: tuple, b: tuple) -> bool:
+    return b[: len(a)] == a
+
+
+def clash_meets_exact_ancestor(layout: tuple, variant: dict, opts: dict) -> bool:
+    """the trigger of the recorded finding C12-exact-ancestor: an exact-form import (base class, or any member
+    under --use-exact-imports) of a class that lives in an ancestor package of the importer"""
+    t, l, u = layout
+    exact = bool(opts.get("use_exact_imports"))
+    return ((exact or variant.get("base")) and is_prefix(t, l)) or (exact and (is_prefix(l, u) or (variant.get("both") and is_prefix(t, u))))
+
+
+def clash_case(layout: tuple, variant: dict, order: list[int] | None, opts: dict, model: str) -> dict:
+    """T.N; L.J uses T.N (member or base class); L.N (same short name, optional); L.S uses L.N (optional);
+    U.R uses L's class — and T.N too (optional); U.N (a third class of that name, optional).
+    `order`: a permutation of the definitions (document order = the order the generator meets the models in)."""
+    t, l, u = layout
+    n = variant.get("name", "Shared")
+    tn, lj = dotted((*t, n)), dotted((*l, "J"))
+    items: list[tuple[str, list[str]]] = [(tn, []), (lj, [] if variant.get("base") else [tn])]
+    bases = {lj: tn} if variant.get("base") else {}
+    local = dotted((*l, n)) if variant.get("local", True) else lj
+    if variant.get("local", True):
+        items.append((local, []))
+    if variant.get("sibling"):
+        items.append((dotted((*l, "S")), [local]))
+    items.append((dotted((*u, "R")), [local] + ([tn] if variant.get("both") and u != t else [])))
+    if variant.get("third") and u != t:
+        items.append((dotted((*u, n)), []))
+    if order is not None:
+        items = [items[i % len(items)] for i in order if i < len(items)]
+        assert len({k for k, _ in items}) == len(items)
+    return {"defs": dict(items), "bases": bases, "opts": dict(opts), "model": model}
+
+
+CLASH_VARIANTS = [
+    {"local": loc, "base": base, "sibling": sib, "both": both, "third": third}
+    for loc in (True, False) for base in (False, True) for sib in (False, True) for both in (False, True) for third in (False, True)
+]
+
+
+def gen_clash_case(rng: Rng) -> dict:
+    for _ in range(8):
+        layout = rng.choice(clash_layouts())
+        variant = dict(rng.choice(CLASH_VARIANTS))
+        if rng.chance(3, 4):
+            variant["local"] = True
+        opts = rng.choice([{}, {}, {"use_exact_imports": True}, {"treat_dot_as_module": True}])
+        if not clash_meets_exact_ancestor(layout, variant, opts) or rng.chance(1, 8):
+            break  # mostly outside the trigger of the recorded exact/ancestor finding, which fails before any use is reached
+    probe = clash_case(layout, variant, None, {}, "pydantic_v2.BaseModel")
+    order = rng.shuffle(list(range(len(probe["defs"]))))
+    model = rng.choice(["pydantic_v2.BaseModel"] * 4 + ["pydantic.BaseModel", "dataclasses.dataclass", "typing.TypedDict"])
+    return clash_case(layout, variant, order, opts, model)
+
+
+def clash_sweep():
+    """small scope, exhaustively: every layout x {member, base class} x {default, exact imports} x ALL orders of
+    the four definitions T.N, L.J, L.N, U.R"""
+    for layout in clash_layouts():
+        for base in (False, True):
+            for opts in ({}, {"use_exact_imports": True}):
+                if clash_meets_exact_ancestor(layout, {"base": base}, opts):
+                    continue  # the recorded exact/ancestor finding: the package does not import, no use is reached
+                for order in itertools.permutations(range(4)):
+                    yield clash_case(layout, {"base": base}, list(order), opts, "pydantic_v2.BaseModel")
+
+
 # ---------------------------------------------------------------- end-to-end: the property's own oracle
 def file_module(rel: str) -> tuple[tuple, bool]:
     parts = rel.split("/")
@@ -428,6 +644,14 @@ def resolve_level(importer: tuple, is_init: bool, level: int, module: str | None
     return py_resolve(importer, is_init, level, undot(module or ""))
 
 
+def nfkc(x: str) -> str:
+    return unicodedata.normalize("NFKC", x)
+
+
+def uesc(x: str) -> str:
+    return x.encode("unicode_escape").decode()
+
+
 def static_oracle(files: dict[str, str]) -> list[dict]:
     """Oracles (1)-(3) of the property on a written file set. Returns failure records
     {check, file, detail, importer, is_init, target?}."""
@@ -439,11 +663,16 @@ def static_oracle(files: dict[str, str]) -> list[dict]:
             continue
         parts = rel.split("/")
         comps = parts[:-1] + [parts[-1][: -len(".py")]]
-        for c in comps:
-            if c == "__init__" and c is comps[-1]:
+        for k, c in enumerate(comps):
+            if c == "__init__" and k == len(comps) - 1:
                 continue
+            where = {"component": c, "is_dir": k < len(comps) - 1}
             if not c.isidentifier() or keyword.iskeyword(c):
-                fails.append({"check": "names_importable", "file": rel, "detail": f"component {c!r} is not an importable identifier"})
+                fails.append({"check": "names_importable", "file": rel, "detail": f"component {c!r} is not an importable identifier", **where})
+            elif nfkc(c) != c:
+                # the compiler NFKC-normalises every identifier, the names in import statements included
+                fails.append({"check": "names_importable", "file": rel, **where,
+                              "detail": f"component {c!r} ({uesc(c)}) can never be named by an import statement: Python looks for {uesc(nfkc(c))}"})
         try:
             trees[rel] = ast.parse(text)
         except SyntaxError as e:
@@ -519,44 +748,193 @@ def static_oracle(files: dict[str, str]) -> list[dict]:
 
 
 IMPORT_SCRIPT = r"""
-import ast, importlib, json, sys, warnings
+import ast, importlib, json, os, sys, typing, unicodedata, warnings
 warnings.simplefilter("ignore")
 root = sys.argv[1]
 sys.path.insert(0, root)
-jobs = json.loads(open(sys.argv[2]).read())
+spec = json.loads(open(sys.argv[2]).read())
+jobs, expect = spec["jobs"], spec["expect"]
 out = {}
+
+def own_names(node):
+    return frozenset(ast.unparse(st.target) for st in node.body if isinstance(st, ast.AnnAssign))
+
+def registry_of(pkg):
+    # (module name, class name) -> the member names the class statement itself declares, for every file of the package
+    reg = {}
+    top = os.path.join(root, pkg)
+    for d, _, fs in os.walk(top):
+        for f in fs:
+            if not f.endswith(".py"):
+                continue
+            rel = os.path.relpath(os.path.join(d, f), root)[:-3].split(os.sep)
+            if rel[-1] == "__init__":
+                rel = rel[:-1]
+            try:
+                tree = ast.parse(open(os.path.join(d, f), encoding="utf-8").read())
+            except SyntaxError:
+                continue
+            for n in tree.body:
+                if isinstance(n, ast.ClassDef):
+                    reg[(".".join(rel), n.name)] = own_names(n)
+    return reg
+
+def package_classes(v, pkg, ns, depth=0):
+    # the classes of the generated package that occur in an evaluated annotation
+    if depth > 8:
+        return []
+    if isinstance(v, str):
+        try:
+            v = eval(v, dict(ns))
+        except Exception:
+            return []
+    if isinstance(v, typing.ForwardRef):
+        return package_classes(v.__forward_arg__, pkg, ns, depth + 1)
+    if isinstance(v, type) and not typing.get_args(v):
+        mod = getattr(v, "__module__", "")
+        return [v] if mod == pkg or mod.startswith(pkg + ".") else []
+    found = []
+    for a in typing.get_args(v):
+        found += package_classes(a, pkg, ns, depth + 1)
+    return found
+
+def describe(c, reg):
+    key = (c.__module__, c.__qualname__)
+    return f"{key[0].split('.', 1)[-1] if '.' in key[0] else '<root>'}.{key[1]} (members {sorted(reg.get(key, []))})"
+
 for pkg, modules in jobs.items():
-    res = {}
+    res, reach = {}, {}
+    reg = registry_of(pkg)
+    exp = expect.get(pkg, {"fields": [], "bases": []})
     for m in modules:
         for k in list(sys.modules):          # every module is imported as the first one of its package
             if k == pkg or k.startswith(pkg + "."):
                 del sys.modules[k]
         try:
-            mod = importlib.import_module(m)
+            # by the name an `import` statement can give: the compiler NFKC-normalises identifiers
+            mod = importlib.import_module(unicodedata.normalize("NFKC", m))
             # every annotation written in a class body of this module evaluates in this module's namespace
             # (the class's own annotations only: inherited ones belong to the module that wrote them)
             tree = ast.parse(open(mod.__file__, encoding="utf-8").read())
             res[m] = None
+            ns = dict(vars(mod))
             for cls in [n for n in tree.body if isinstance(n, ast.ClassDef)]:
+                own = own_names(cls)
+                values = {}
                 for st in cls.body:
                     if isinstance(st, ast.AnnAssign):
                         try:
-                            eval(compile(ast.Expression(st.annotation), mod.__file__, "eval"), dict(vars(mod)))
+                            values[ast.unparse(st.target)] = eval(compile(ast.Expression(st.annotation), mod.__file__, "eval"), dict(ns))
                         except Exception as e:
                             res[m] = f"annotation of {cls.name}.{ast.unparse(st.target)}: {type(e).__name__}: {e}"[:300]
                             break
                 if res[m]:
                     break
+                # (5) each use of a foreign (or local) model reaches the class of the definition it refers to
+                for owner, field, target in exp["fields"]:
+                    if frozenset(owner) != own or field not in values:
+                        continue
+                    got = package_classes(values[field], pkg, ns)
+                    bad = [c for c in got if reg.get((c.__module__, c.__qualname__)) != frozenset(target)]
+                    if bad or not got:
+                        what = describe(bad[0], reg) if bad else f"no class of the package (`{ast.unparse([st for st in cls.body if isinstance(st, ast.AnnAssign) and ast.unparse(st.target) == field][0].annotation)}`)"
+                        reach.setdefault(m, []).append({"text": f"{cls.name}.{field} reaches {what}, not the definition with members {sorted(target)}"[:400],
+                                                        "reached": bad[0].__module__ if bad else None, "target": sorted(target)})
+                for owner, base in exp["bases"]:
+                    if frozenset(owner) != own:
+                        continue
+                    got = []
+                    for b in cls.bases:
+                        try:
+                            got += package_classes(eval(compile(ast.Expression(b), mod.__file__, "eval"), dict(ns)), pkg, ns)
+                        except Exception as e:
+                            pass
+                    if not any(reg.get((c.__module__, c.__qualname__)) == frozenset(base) for c in got):
+                        what = describe(got[0], reg) if got else "no class of the package"
+                        reach.setdefault(m, []).append({"text": f"base of {cls.name} is {what}, not the definition with members {sorted(base)}"[:400],
+                                                        "reached": got[0].__module__ if got else None, "target": sorted(base)})
         except BaseException as e:
             res[m] = f"{type(e).__name__}: {e}"[:300]
-    out[pkg] = res
+    out[pkg] = {"modules": res, "reach": reach}
 print(json.dumps(out))
 """
 
 
-def import_packages(packages: dict[str, dict[str, str]], v1_shim: set[str]) -> dict[str, dict[str, str | None]]:
-    """Oracle (4): write every package to a scratch directory and import each of its modules in ONE
-    fresh interpreter. Returns per package: module -> None | error text."""
+def _schema_props(obj) -> list[str] | None:
+    """member names of an object schema (None: not a plain object with members)"""
+    if isinstance(obj, dict) and obj.get("type") == "object" and isinstance(obj.get("properties"), dict):
+        return sorted(obj["properties"])
+    return None
+
+
+def expectations(case: dict) -> dict:
+    """Oracle (5), stated on the INPUT: for every member / base that is a `$ref`, the member names of the
+    referring definition, the member, and the member names of the referenced definition. A class is told
+    by the set of members its class statement declares, so only definitions whose member set is unique in
+    the document take part (generated documents give every definition a member of its own)."""
+    fields: list = []
+    bases: list = []
+    objs: list[list[str]] = []
+    if "defs" in case:
+        doc = build_doc(case["defs"], case["bases"], case.get("roots"))["definitions"]
+        body = {}
+        for nm, sch in doc.items():
+            b = sch["allOf"][1] if "allOf" in sch else sch
+            body[nm] = _schema_props(b)
+            if body[nm] is not None:
+                objs.append(body[nm])
+        for nm, sch in doc.items():
+            if body[nm] is None:
+                continue
+            b = sch["allOf"][1] if "allOf" in sch else sch
+            for f, fs in b["properties"].items():
+                if "$ref" in fs:
+                    t = body.get(fs["$ref"].rsplit("/", 1)[-1])
+                    if t is not None:
+                        fields.append([body[nm], f, t])
+            if "allOf" in sch:
+                t = body.get(sch["allOf"][0]["$ref"].rsplit("/", 1)[-1])
+                if t is not None:
+                    bases.append([body[nm], t])
+    else:
+        files = case["files"]
+
+        def target_of(rel: str, ref: str):
+            path, _, frag = ref.partition("#")
+            f = os.path.normpath(os.path.join(os.path.dirname(rel), path)) if path else rel
+            node = files.get(f)
+            for part in [x for x in frag.split("/") if x]:
+                node = node.get(part) if isinstance(node, dict) else None
+            return _schema_props(node)
+
+        def walk(rel: str, node) -> None:
+            props = _schema_props(node)
+            if props is not None:
+                objs.append(props)
+                for f, fs in node["properties"].items():
+                    if isinstance(fs, dict) and "$ref" in fs:
+                        t = target_of(rel, fs["$ref"])
+                        if t is not None:
+                            fields.append([props, f, t])
+            if isinstance(node, dict):
+                for d in (node.get("definitions") or {}).values():
+                    walk(rel, d)
+
+        for rel, obj in files.items():
+            walk(rel, obj)
+    unique = lambda p: objs.count(p) == 1
+    return {
+        "fields": [e for e in fields if unique(e[0]) and unique(e[2])],
+        "bases": [e for e in bases if unique(e[0]) and unique(e[1])],
+        "skipped": sum(1 for e in fields + bases if not (unique(e[0]) and unique(e[-1]))),
+    }
+
+
+def import_packages(packages: dict[str, dict[str, str]], v1_shim: set[str], expect: dict[str, dict] | None = None) -> dict[str, dict]:
+    """Oracles (4) and (5): write every package to a scratch directory and import each of its modules in ONE
+    fresh interpreter (by the name an import statement can give it); evaluate every annotation; compare the
+    class every `$ref` member / base reaches with the referenced definition.
+    Returns per package: {"modules": module -> None | error text, "reach": module -> [failure text]}."""
     root = Path(tempfile.mkdtemp(dir=e2e.scratch_root()))
     jobs: dict[str, list[str]] = {}
     for pkg, files in packages.items():
@@ -572,7 +950,7 @@ def import_packages(packages: dict[str, dict[str, str]], v1_shim: set[str]) -> d
                 if all(c.isidentifier() for c in m):
                     mods.append(".".join((pkg, *m)))
         jobs[pkg] = sorted(mods)
-    (root / "jobs.json").write_text(json.dumps(jobs))
+    (root / "jobs.json").write_text(json.dumps({"jobs": jobs, "expect": expect or {}}))
     try:
         proc = subprocess.run([PY, "-c", IMPORT_SCRIPT, str(root), str(root / "jobs.json")], capture_output=True, text=True, timeout=300)
         if proc.returncode != 0:
@@ -625,6 +1003,30 @@ def edge_mechanism(importer: tuple, e: dict) -> str:
     return "regular_pair"
 
 
+def importable(c: str) -> bool:
+    return c.isidentifier() and not keyword.iskeyword(c) and nfkc(c) == c
+
+
+def classify_tree(fail: dict, case: dict, files: dict[str, str]) -> str:
+    """mechanism of an oracle failure on an input file tree (no file-map model). The two recorded findings are
+    told by their triggers: a DIRECTORY name of the tree that is no importable identifier (directory names are
+    not sanitised), a file STEM that is a keyword (sanitize_module_name lets keywords through)."""
+    in_dirs = {c for rel in case["files"] for c in rel.split("/")[:-1]}
+    out_dirs = {c for rel in files for c in rel.split("/")[:-1]}
+    bad_dirs = {c for c in in_dirs | out_dirs if not importable(c)}
+    kw_stems = {c for rel in files for c in [rel.split("/")[-1][: -len(".py")]] if keyword.iskeyword(c)}
+    if fail["check"] == "names_importable":
+        if fail.get("is_dir"):
+            return "unsanitized_dir_name"
+        return "keyword_module_name" if keyword.iskeyword(fail.get("component", "")) else "module_stem_not_importable"
+    # consequences (a file that does not parse, an import that does not resolve) in a package that has such a name
+    if kw_stems:
+        return "keyword_module_name"
+    if bad_dirs:
+        return "unsanitized_dir_name"
+    return "other"
+
+
 def classify(fail: dict, case: dict, pred: dict | None, files: dict[str, str]) -> dict:
     """classification of one oracle failure (matched against known_findings.json)"""
     base = {"oracle": fail["check"], "input_kind": "dotted_names" if "defs" in case else "file_tree"}
@@ -632,11 +1034,11 @@ def classify(fail: dict, case: dict, pred: dict | None, files: dict[str, str]) -
     comps = [c for f in files for c in f[: -len(".py")].split("/")]
     if pred is None and case["opts"].get("collapse_root_models") and case.get("roots") and fail["check"] in ("use_is_bound", "use_reaches_definition"):
         return {**base, "mechanism": "collapse_root_model_import_lost"}
+    if base["input_kind"] == "file_tree":
+        return {**base, "mechanism": classify_tree(fail, case, files)}
     if fail["check"] in ("names_importable", "parses") or pred is None:
         if any(keyword.iskeyword(c) for c in comps):
             return {**base, "mechanism": "keyword_module_name"}
-        if any(not c.isidentifier() for c in comps) or fail["check"] == "parses":
-            return {**base, "mechanism": "unsanitized_dir_name" if base["input_kind"] == "file_tree" else "other"}
         return {**base, "mechanism": "other"}
     if fail["check"] == "no_shadowing":
         return {**base, "mechanism": "gap_not_filled" if pred["checks"].get("covered") == "0" else "other"}
@@ -661,6 +1063,8 @@ def classify(fail: dict, case: dict, pred: dict | None, files: dict[str, str]) -
             return {**base, "mechanism": "alias_clash_same_import"}
     if fail.get("attr_shadow"):
         return {**base, "mechanism": "init_name_shadows_submodule"}
+    if fail["check"] == "use_reaches_definition" and importer in relative_key_collisions(case):
+        return {**base, "mechanism": "relative_key_collision"}
     mechs = set()
     for e in pred["preds"].get(importer, []):
         lvl, pkg, name = e["import"]
@@ -676,6 +1080,8 @@ def classify(fail: dict, case: dict, pred: dict | None, files: dict[str, str]) -
 
 
 def observe(case: dict) -> e2e.Result:
+    install_recorder()
+    _RECORDS.clear()
     if "files" in case:
         return run_tree(case)
     return e2e.run_generate(build_doc(case["defs"], case["bases"], case.get("roots")), model=case["model"], opts=case["opts"], modular=True)
@@ -718,9 +1124,14 @@ def check_case(ck: Check, camp, case: dict, pending: list, correspond: bool = Tr
     """static oracles + model correspondence for one case; queues the package for the import oracle"""
     camp.evaluations += 1
     res = observe(case)
+    records = list(_RECORDS)
+    if correspond and records:
+        check_records(ck, camp, case, records)
     for k in case["opts"]:
         camp.hit(f"opt:{k}")
     camp.hit(f"kind:{case['model']}")
+    for k in case.get("kinds", []):
+        camp.hit(f"stem:{k}")
     if not res.ok:
         camp.hit(f"reported_error:{res.error_type}")
         return
@@ -749,7 +1160,7 @@ def check_case(ck: Check, camp, case: dict, pending: list, correspond: bool = Tr
     mechs = []
     for f in fails:
         cl = classify(f, case, pred, files)
-        mechs.append(cl["mechanism"])
+        mechs.append((f.get("file", ""), cl["mechanism"]))
         ck.fail(cl, case, f"{f['file']}: {f['detail']}")
     pending.append((case, files, pred, sorted(set(mechs))))
     if len(camp.samples) < 3 and not fails:
@@ -781,31 +1192,101 @@ def correspondence(ck: Check, camp, case: dict, files: dict[str, str], pred: dic
             ck.disagree(camp, {"what": f"relative imports of {rel}", **case}, want_i, got)
 
 
+REACH_INHERITS = ("init_name_shadows_submodule", "init_body_copied")
+
+
+def copied_init_involved(case: dict, pred: dict | None, files: dict[str, str], importer: tuple, item: dict) -> bool:
+    """Trigger of the recorded finding C12-treatdot-init for a wrong class reached: under --treat-dot-as-module the
+    package file of the importer, of the module the reached class lives in, or of the module the referenced
+    definition belongs to carries a body that __postprocess_result_modules copied over it (file-map model:
+    the body differs from the one the same file has without the post-processing)."""
+    if pred is None or not case["opts"].get("treat_dot_as_module") or "fmap_plain" not in pred:
+        return False
+    mods = {importer}
+    if item.get("reached"):
+        mods.add(undot(item["reached"].split(".", 1)[1] if "." in item["reached"] else ""))
+    doc = build_doc(case["defs"], case["bases"], case.get("roots"))["definitions"]
+    for nm, sch in doc.items():
+        b = sch["allOf"][1] if "allOf" in sch else sch
+        if _schema_props(b) == item.get("target"):
+            mods.add(mod_of(nm))
+    for mod in mods:
+        r = "/".join((*mod, "__init__.py"))
+        if mod and r in pred["fmap"] and pred["fmap_plain"].get(r) != pred["fmap"][r]:
+            return True
+    return False
+
+
+def relative_key_collisions(case: dict) -> set[tuple]:
+    """Trigger of the recorded finding C12-relkey-collision, stated on the input: importers m that refer to
+    classes of BOTH m + s (a module below the package m) and m[:-1] + s (the like-named module beside m).
+    `relative(m, ·)` answers both with one and the same (from, import) pair — the pair is the key under which
+    the scoped resolver hands out the import's name, so the two imports share one name."""
+    if "defs" not in case:
+        return set()
+    targets: dict[tuple, set[tuple]] = {}
+    for nm, refs in case["defs"].items():
+        for r in list(refs) + ([case["bases"][nm]] if nm in case["bases"] else []):
+            if mod_of(r) != mod_of(nm):
+                targets.setdefault(mod_of(nm), set()).add(mod_of(r))
+    out = set()
+    for m, ts in targets.items():
+        if m and any(t[: len(m)] == m and len(t) > len(m) and (m[:-1] + t[len(m):]) in ts for t in ts):
+            out.add(m)
+    return out
+
+
 def flush_imports(ck: Check, camp, pending: list) -> None:
-    """oracle (4) for all queued packages in one fresh interpreter"""
+    """oracles (4) and (5) for all queued packages in one fresh interpreter"""
     if not pending:
         return
     packages = {f"pkg{i}": files for i, (_, files, _, _) in enumerate(pending)}
     shim = {f"pkg{i}" for i, (case, _, _, _) in enumerate(pending) if case["model"] == "pydantic.BaseModel"}
+    expect = {f"pkg{i}": expectations(case) for i, (case, _, _, _) in enumerate(pending)}
     try:
-        results = import_packages(packages, shim)
+        results = import_packages(packages, shim, expect)
     except Exception as e:  # noqa: BLE001
         ck.infra_errors.append(f"import oracle: {e}")
         return
     for i, (case, files, pred, mechs) in enumerate(pending):
         camp.hit("packages_imported")
-        errs = {m: e for m, e in results.get(f"pkg{i}", {}).items() if e}
+        kind = "dotted_names" if "defs" in case else "file_tree"
+        exp = expect[f"pkg{i}"]
+        camp.hit("reach_expectations", len(exp["fields"]) + len(exp["bases"]))
+        if exp["skipped"]:
+            camp.hit("reach_skipped:ambiguous_or_root_model", exp["skipped"])
+        r = results.get(f"pkg{i}", {"modules": {}, "reach": {}})
+        errs = {m: e for m, e in r["modules"].items() if e}
         circ = {m for m, e in errs.items() if "partially initialized module" in e or "circular import" in e}
         if circ:  # an ordering problem between modules that import each other's names (C02), not a resolution problem
             camp.hit("circular_import_not_C12", len(circ))
             errs = {m: e for m, e in errs.items() if m not in circ}
-        if not errs:
-            continue
-        m, e = sorted(errs.items())[0]
-        mech = mechs[0] if mechs else "runtime_only"
-        camp.hit(f"import_failed:{mech}")
-        ck.fail({"oracle": "import_subprocess", "input_kind": "dotted_names" if "defs" in case else "file_tree", "mechanism": mech}, case,
-                f"importing {m.split('.', 1)[-1] if '.' in m else '<root>'} in a fresh interpreter: {e}")
+        def mechs_of(module: str) -> list[str]:
+            """mechanisms of the static failures of that module's own file; of the whole package when it has none
+            (a module also fails to import when a module it imports is broken)"""
+            path = undot(module.split(".", 1)[1] if "." in module else "")
+            own = sorted({mc for f, mc in mechs if f.endswith(".py") and file_module(f)[0] == path})
+            return own or sorted({mc for _, mc in mechs})
+
+        if errs:
+            m, e = sorted(errs.items())[0]
+            mech = (mechs_of(m) or ["runtime_only"])[0]
+            camp.hit(f"import_failed:{mech}")
+            ck.fail({"oracle": "import_subprocess", "input_kind": kind, "mechanism": mech}, case,
+                    f"importing {m.split('.', 1)[-1] if '.' in m else '<root>'} in a fresh interpreter: {e}")
+        # (5): the class reached is not the class of the referenced definition. It is a consequence of a recorded
+        # defect only where that defect is about a name bound to another module's object.
+        for m, items in sorted(r["reach"].items()):
+            strip = lambda mod: undot(mod.split(".", 1)[1] if "." in mod else "")
+            inherited = [x for x in mechs_of(m) if x in REACH_INHERITS]
+            if strip(m) in relative_key_collisions(case):
+                inherited.append("relative_key_collision")
+            if copied_init_involved(case, pred, files, strip(m), items[0]):
+                inherited.append("init_body_copied")
+            mech = inherited[0] if inherited else "wrong_class_reached"
+            camp.hit(f"reach_failed:{mech}")
+            ck.fail({"oracle": "use_reaches_target", "input_kind": kind, "mechanism": mech}, case,
+                    f"{m.split('.', 1)[-1] if '.' in m else '<root>'}: {items[0]['text']}")
     pending.clear()
 
 
@@ -844,24 +1325,113 @@ TREE_CORPUS = [
 ]
 
 
-def gen_tree(rng: Rng) -> dict:
-    dirs = rng.sample(["", "a", "a/b", "c", "a/sub"], rng.range(1, 3))
-    stems = ["pet", "user", "order", "item", "my-file", "x1"]
-    paths: list[str] = []
-    for d in dirs:
-        for s in rng.sample(stems, rng.range(1, 2)):
-            paths.append((d + "/" if d else "") + s + ".json")
+_UNI: dict[str, list[str]] = {}
+
+
+def unicode_classes() -> dict[str, list[str]]:
+    """Representatives, computed from the interpreter, of the character classes on which "is kept by the module
+    name", "may stand in an identifier" and "is left alone by the compiler's NFKC normalisation" differ."""
+    if not _UNI:
+        uns_start, uns_cont, st_start, st_cont, other = [], [], [], [], []
+        for cp in itertools.chain(range(0x80, 0x3100), range(0x4E00, 0x4E40), range(0xA000, 0xA040), range(0xF900, 0x10000), range(0x1D400, 0x1D440)):
+            if 0xD800 <= cp < 0xE000:
+                continue
+            c = chr(cp)
+            if c.isidentifier():
+                (uns_start if nfkc(c) != c else st_start).append(c)
+            elif ("a" + c).isidentifier():
+                (uns_cont if nfkc(c) != c else st_cont).append(c)
+            elif c.isprintable() and not c.isspace():
+                other.append(c)
+        _UNI.update(
+            unstable_start=uns_start, unstable_cont=uns_cont, stable_start=st_start, stable_cont=st_cont, non_identifier=other,
+            # the usual suspects first: micro sign, ligatures, full-width forms, long s, Angstrom/Kelvin/Ohm signs, ordinals, roman numerals
+            unstable_known=list("\u00b5\ufb01\ufb00\uff21\uff42\uff3f\u017f\u212b\u212a\u2126\u00aa\u00ba\u2163\u210c\u01c6\u1e9b\uff11"),
+            stable_known=list("\u00e9\u00df\u00f6\u03bb\u4e2d\u044f\u03bc\u00c5"),
+            ascii_other=list("- $+(',&=@!~"),
+        )
+    return _UNI
+
+
+TREE_KEYWORDS = ["class", "import", "None", "def", "match", "_"]
+
+
+def gen_stem(rng: Rng, tag: str) -> tuple[str, str]:
+    """a file stem and the class of names it stands for; `tag` (ASCII, unique in the tree) keeps two stems of one
+    tree from falling onto one module name, unless the collision is what is asked for (tag == "")"""
+    u = unicode_classes()
+    kind = rng.choice(["ascii", "ascii", "unstable", "unstable", "unstable", "stable", "stable", "non_identifier", "non_identifier", "digit_first", "keyword", "mixed"])
+    pick = lambda key: rng.choice(u[key])
+    word = rng.choice(["pet", "user", "Order", "x1", "a_b", "units", ""])
+    if kind == "ascii":
+        body = rng.choice(["pet", "user", "order", "item", "my-file", "x1"])
+    elif kind == "unstable":
+        ch = pick("unstable_known") if rng.chance(1, 2) else pick(rng.choice(["unstable_start", "unstable_start", "unstable_cont"]))
+        body = rng.choice([ch + "_" + word, word + ch, ch, word[:1] + ch + word[1:]])
+    elif kind == "stable":
+        ch = pick("stable_known") if rng.chance(1, 2) else pick(rng.choice(["stable_start", "stable_start", "stable_cont"]))
+        body = rng.choice([ch + word, word + ch, ch + ch])
+    elif kind == "non_identifier":
+        ch = pick("ascii_other") if rng.chance(1, 2) else pick("non_identifier")
+        body = rng.choice([word + ch + "x", ch + word, word + ch])
+    elif kind == "digit_first":
+        body = rng.choice(["1", "9x", "0_", "\uff11x", "\u0663a", "2" + pick("unstable_known")]) + word
+    elif kind == "keyword":
+        return rng.choice(TREE_KEYWORDS), "keyword"
+    else:
+        body = "".join(pick(rng.choice(["unstable_known", "stable_known", "ascii_other", "unstable_start", "stable_start"])) for _ in range(rng.range(1, 3)))
+    stem = rng.choice([body + tag, tag + body]) if tag else body
+    if not stem or stem.startswith(".") or "/" in stem or "\x00" in stem or "." in stem:
+        stem = "f" + tag + stem.replace("/", "").replace("\x00", "").replace(".", "")
+    return stem, kind
+
+
+def _obj(i: int, refs: list[str]) -> dict:
+    """the object of file i: a member of its own (oracle (5) tells classes by it) and one member per reference"""
+    props = {"x": {"type": "integer"}, f"m{i}": {"type": "string"}}
+    for k, r in enumerate(refs):
+        props["r" if k == 0 else f"r{k}"] = {"$ref": r}
+    return {"type": "object", "properties": props}
+
+
+def tree_case(paths: list[str], links: dict[int, list[int]], nested: set[int], opts: dict, model: str = "pydantic_v2.BaseModel") -> dict:
+    """`paths[i]`: input file i; `links[i]`: files it refers to; `nested`: files whose object sits under
+    `definitions/Unit` (referred to as `file.json#/definitions/Unit`) instead of being the file's root schema"""
     files = {}
     for i, p in enumerate(paths):
-        if i and rng.chance(2, 3):
-            t = paths[rng.below(i)]
-            files[p] = _ref(os.path.relpath(t, os.path.dirname(p) or "."))
-        else:
-            files[p] = _OBJ
-    return {"files": files, "opts": dict(rng.choice([{}, {}, {"use_exact_imports": True}, {"treat_dot_as_module": True}])), "model": "pydantic_v2.BaseModel"}
+        refs = []
+        for j in links.get(i, []):
+            r = os.path.relpath(paths[j], os.path.dirname(p) or ".")
+            refs.append(r + "#/definitions/Unit" if j in nested else r)
+        files[p] = {"definitions": {"Unit": _obj(i, refs)}} if i in nested else _obj(i, refs)
+    return {"files": files, "opts": dict(opts), "model": model}
 
 
-def campaign_e2e(ck: Check, n: int, n_tree: int, depth: int) -> None:
+def gen_tree(rng: Rng) -> dict:
+    """input file tree: file names drawn, by class, from ASCII words, characters that may stand in an identifier but
+    are NOT stable under NFKC, non-ASCII identifier characters that are, characters that may not stand in an
+    identifier, digits first, keywords; references by relative path, to the file or to a definition in it"""
+    dir_pool = ["", "", "a", "a/b", "c", "a/sub"] + (["\u00e9"] if rng.chance(1, 4) else []) + (["\u00b5d"] if rng.chance(1, 10) else [])
+    dirs = rng.sample(dir_pool, rng.range(1, 3))
+    collide = rng.chance(1, 6)
+    paths: list[str] = []
+    kinds: list[str] = []
+    tags = list("pqrstuvw")
+    for d in dict.fromkeys(dirs):
+        for _ in range(rng.range(1, 2)):
+            stem, kind = gen_stem(rng, "" if collide else tags[len(paths)])
+            path = (d + "/" if d else "") + stem + ".json"
+            if path not in paths:
+                paths.append(path)
+                kinds.append(kind)
+    links = {i: rng.sample(range(i), rng.range(1, min(2, i))) for i in range(1, len(paths)) if rng.chance(3, 4)}
+    nested = {i for i in range(len(paths)) if rng.chance(1, 4)}
+    case = tree_case(paths, links, nested, rng.choice([{}, {}, {"use_exact_imports": True}, {"treat_dot_as_module": True}]))
+    case["kinds"] = kinds
+    return case
+
+
+def campaign_e2e(ck: Check, n: int, n_tree: int, depth: int, n_clash: int = 0) -> None:
     camp = ck.campaign("e2e: dotted definition names -> real generate(); file map + import lines vs model; oracles (1)-(4)")
     t0 = time.time()
     rng = ck.rng.fork("e2e")
@@ -870,6 +1440,11 @@ def campaign_e2e(ck: Check, n: int, n_tree: int, depth: int) -> None:
         check_case(ck, camp, case, pending)
     for _ in range(n):
         check_case(ck, camp, gen_case(rng, depth), pending)
+    # the family "one short class name in several modules, referred to across modules, in every definition order"
+    rng_c = ck.rng.fork("clash")
+    for _ in range(n_clash):
+        camp.hit("family:same_short_name")
+        check_case(ck, camp, gen_clash_case(rng_c), pending)
     flush_imports(ck, camp, pending)
     camp.wall_s = time.time() - t0
     camp2 = ck.campaign("e2e: input file trees (several files, references by path); oracles (1)-(4), no file-map model")
@@ -907,6 +1482,59 @@ def search_from_disagreements(ck: Check) -> None:
     flush_imports(ck, camp, pending)
 
 
+def search_same_short_name(ck: Check) -> None:
+    """small-scope sweep of the family "one short class name in several modules": every layout of three modules,
+    member / base-class use, default / exact imports, ALL definition orders — the property's own oracles on the
+    real generator (runs only when an obligation or a correspondence broke)"""
+    camp = ck.campaign("search: one short class name in several modules, all definition orders")
+    t0 = time.time()
+    pending: list = []
+    budget = 90 if ck.tier == "quick" else 600
+    for case in clash_sweep():
+        check_case(ck, camp, case, pending, correspond=True)
+        if len(pending) >= 96:
+            flush_imports(ck, camp, pending)
+            if ck.failures or time.time() - t0 > budget:
+                break
+    flush_imports(ck, camp, pending)
+    camp.wall_s = time.time() - t0
+
+
+def search_module_names(ck: Check) -> None:
+    """every name on which the model of sanitize_module_name / get_module_path and the code disagree becomes the
+    name of an input file that another file refers to; then one file name per representative of each character
+    class. The property's own oracles (names importable, imports resolve, package imports in a fresh interpreter)
+    run on what the real generator writes for these trees."""
+    camp = ck.campaign("search: disagreeing / class-representative names as input file names")
+    t0 = time.time()
+    pending: list = []
+    names: list[str] = []
+    for d in ck.disagreements:
+        inp = d.input if isinstance(d.input, dict) else {}
+        if inp.get("fn") == "sanitize_module_name":
+            names.append(inp.get("name", ""))
+        elif inp.get("fn") == "get_module_path" and inp.get("file"):
+            names.append(inp["file"][1])
+    u = unicode_classes()
+    names += [c + "_units" for c in u["unstable_known"] + u["stable_known"]] + ["x" + c for c in u["unstable_known"] + u["ascii_other"]]
+    rng = ck.rng.fork("search-names")
+    names += [rng.choice(u[k]) + "q" for k in ("unstable_start", "unstable_cont", "stable_start", "stable_cont", "non_identifier") for _ in range(8)]
+    seen = set()
+    for nm in names:
+        if not nm or nm in seen or "/" in nm or "\x00" in nm or nm.startswith(".") or "." in nm or len(nm.encode()) > 200:
+            continue
+        seen.add(nm)
+        for nested in (set(), {0}):
+            for opts in ({}, {"use_exact_imports": True}):
+                check_case(ck, camp, tree_case([nm + ".json", "sensor.json"], {1: [0]}, nested, opts), pending)
+        if len(pending) >= 96:
+            flush_imports(ck, camp, pending)
+            if ck.failures:
+                break
+    flush_imports(ck, camp, pending)
+    camp.wall_s = time.time() - t0
+
+
 def known_findings(ck: Check) -> None:
     for f in ck.findings:
         probe = Check(ck.prop, ck.tier)
@@ -930,13 +1558,16 @@ def run(ck: Check) -> None:
         "module paths of dotted definition names consist of identifiers (FieldNameResolver.get_valid_name, property C07); directory names of input trees are outside the file-map model (oracle only)",
         "the order of module paths is the one Python's sorted(key=(len, path), reverse=True) yields (the harness sorts; the theorems only use deepest-first)",
         "the condition of the package-file extra dot is modelled on name lists (importer path is a prefix of the importee path); the code tests it on dotted strings with a trailing '.', which is the same for names without dots",
-        "alias allocation (import … as …) is not modelled: import lines are compared up to the alias, uses are checked by the oracle",
+        "names of imports: the scoped resolver is modelled for the calls __change_from_import makes (add(path, name) with default flags; Model/Modules.Scope.add, compared with a real ModelResolver and with the recorded calls of every generated module); get_valid_field_name is a parameter of the theorem (identity on the class names met); the `module.Class` spelling of each use and the later passes (__collapse_root_models, __change_imported_model_name) are checked by oracle (5) only",
+        "oracle (5) tells classes by the set of members their class statement declares: generated documents give every definition a member of its own; references to root models (arrays) and documents with two equal member sets are outside it (counted as reach_skipped)",
+        "Python NFKC-normalises identifiers in source text (import statements included) but not the strings given to importlib: the import oracle imports every module by its NFKC-normalised dotted name; NFKC fixes ASCII (checked on all 128 characters each run)",
     ]
     campaign_resolve(ck, 3 if quick else 4)
     campaign_relative(ck, 3 if quick else 4, 300 if quick else 3000)
     campaign_module_path(ck, 400 if quick else 4000)
-    campaign_e2e(ck, 200 if quick else 3000, 30 if quick else 400, 3 if quick else 4)
-    ck.search_hooks.append(search_from_disagreements)
+    campaign_aliases(ck, 400 if quick else 4000)
+    campaign_e2e(ck, 200 if quick else 3000, 30 if quick else 400, 3 if quick else 4, n_clash=120 if quick else 1500)
+    ck.search_hooks += [search_from_disagreements, search_module_names, search_same_short_name]
     known_findings(ck)
 
 
